@@ -12,7 +12,8 @@ RULE = ("explicit order: 6 orders x separators '-', '/', '.', ' ' x (y,m,d) with
         "boundary years, month-end days, padded/unpadded fields, optional HH:MM / HH:MM:SS suffix x 20 languages x "
         "PREFER_LOCALE_DATE_ORDER on/off (must be irrelevant); locale order: complete walk of all 205 languages and 299 "
         "regional locales with discriminating dates (d<=12, m<=12, m!=d), 3 separators, PREFER_LOCALE_DATE_ORDER on/off; "
-        "oracle = field copy, locale order read from the merged locale info as data (MDY when absent/off). Tripwire: "
+        "after each locale, calls that enter its parsers with nothing to parse (own skip words, blank, impossible date; no explicit "
+        "order) followed by fresh order-less-locale (tl) reads; oracle = field copy, locale order read from the merged locale info as data (MDY when absent/off). Tripwire: "
         "Settings.DATE_ORDER on exit of _try_parser equals its value on entry. non-trivial distinct = distinct "
         "(language/locale, order, string) accepted by the absolute-time parser (path tap).")
 ASSUMPTIONS = ["only strings whose reading under the supplied order is a valid date are generated"]
@@ -128,7 +129,13 @@ def check_locale(ctx, c):
     o = (lo or "MDY") if pl else "MDY"
     s = render(o, y, m, d, sep, True)
     kw = {"languages": [lang]} if loc == lang else {"locales": [loc]}
-    p = parser_for(settings={"PREFER_LOCALE_DATE_ORDER": pl}, **kw)
+    if c.get("fresh"):
+        from dateparser.date import DateDataParser
+
+        # a parser (and settings object) created only now, with default settings when pl is on
+        p = DateDataParser(settings=None if pl else {"PREFER_LOCALE_DATE_ORDER": False}, **kw)
+    else:
+        p = parser_for(settings={"PREFER_LOCALE_DATE_ORDER": pl}, **kw)
     PathTap.reset()
     try:
         dd = p.get_date_data(s)
@@ -150,6 +157,29 @@ def check_locale(ctx, c):
     ctx.count("on_path:absolute-time")
     ctx.count("locale_order:%s" % lo)
     ctx.nontrivial("locale", loc, pl, s)
+
+
+def disturb(ctx, lang, loc):
+    """Calls that enter the parsers of this locale with nothing to parse (its own skip words, blanks, an impossible date),
+    made through the public API with no explicit DATE_ORDER; then the order-less locale is read with fresh parsers: the
+    locale's order must not outlive the call that used it."""
+    import dateparser
+    from dateparser.languages.loader import LocaleDataLoader
+
+    info = LocaleDataLoader().get_locale(loc).info
+    words = [w for w in (info.get("skip") or []) if w.strip()][:2] + ["", "32/13/2015"]
+    kw = {"languages": [lang]} if loc == lang else {"locales": [loc]}
+    for w in words:
+        for st in (None, {"PREFER_DATES_FROM": "past"}):
+            try:
+                dateparser.parse(w, settings=st, **kw)
+            except Exception:
+                ctx.count("disturber:raised(C02's subject)")
+            ctx.count("disturber_calls")
+    for pl in (True, False):
+        check_locale(ctx, {"kind": "locale", "lang": "tl", "loc": "tl", "pl": pl, "y": 2015, "m": 2, "d": 3, "sep": "/",
+                           "fresh": True, "after": loc})
+        ctx.count("victim_checks")
 
 
 def run_shard(ctx, desc):
@@ -179,6 +209,7 @@ def run_shard(ctx, desc):
                     for (y, m, d) in dates:
                         for sep in ("-", "/", "."):
                             check_locale(ctx, {"kind": "locale", "lang": lang, "loc": loc, "pl": pl, "y": y, "m": m, "d": d, "sep": sep})
+                disturb(ctx, lang, loc)
             ctx.sample({"locales_walked": [l for _, l in locs[:8]], "n": len(locs)})
     finally:
         ac.stop()
@@ -201,6 +232,12 @@ def replay_case(ctx, v):
     PathTap.install()
     install_tripwire(ctx)
     c = {k: x for k, x in v["case"].items() if k not in ("string", "locale_order")}
+    if c.get("after"):
+        lang = c["after"].split("-")[0] if c["after"] not in [l for l, _ in all_locales()] else c["after"]
+        for lg, lc in all_locales():
+            if lc == c["after"]:
+                disturb(ctx, lg, lc)
+        return
     if c["kind"] == "explicit":
         check_explicit(ctx, c)
     elif c["kind"] == "locale":
